@@ -60,7 +60,8 @@ def register_names(fam):
         for lvl in D.all_levels(d):
             for f in lvl["named"]:
                 for it in (D.field_leaves(f) if f["kind"] in ("switch", "reqflag", "arg", "alt", "adj") else []):
-                    if it.get("env"):
+                    # (`some(message)` fails with the message the program gave it: nothing to demand of that text)
+                    if it.get("env") and it.get("arity") != "some":
                         NAMES[d["id"]][it["id"]] = it["shorts"] + it["longs"] + [it["env"]] + ([it["env2"]] if it.get("env2") else [])
 
 
